@@ -20,7 +20,7 @@ func init() {
 				"(nocache) every AppDB loader caches only non-empty reads, so records written behind the caches by Restore on a fresh node are seen afterwards; (dirty) C09.dirty, because a restarted producer with a stale emission record would snapshot different contents. " +
 				"NOT decided: IAVL export/import, chunking/compression, behaviour of later blocks.",
 			Assumptions: stdAssumptions,
-			Rules:       []string{"C29.records", "C29.wg", "C29.nocache", "C29.dirty"},
+			Rules:       []string{"C29.records", "C29.wg", "C29.nocache", "C29.dirty", "C29.fromdisk", "C29.fallback"},
 		},
 		Run: runC29,
 	})
@@ -216,8 +216,96 @@ func runC29(c *core.Ctx) {
 	}
 	c.Floor("C29.nocache", nL, 5, "AppDB loader stores")
 
-	// ---- dirty (shared with C09)
+	// ---- fromdisk: what a snapshot contains is what was committed — Snapshot (and what it calls
+	// inside the appdb package) reads the records with db.Get and never through the in-memory
+	// caches, which already hold the NEXT block's values between EndBlock and Commit
 	fields := analyseAppFields(c, f)
+	isData := map[string]bool{}
+	for _, af := range fields {
+		isData[af.Name] = true
+	}
+	pkgReach := func(root *ssa.Function) map[*ssa.Function]bool {
+		seen := map[*ssa.Function]bool{}
+		var walk func(fn *ssa.Function, d int)
+		walk = func(fn *ssa.Function, d int) {
+			if fn == nil || seen[fn] || d > 4 || fn.Blocks == nil || core.PkgOf(fn) != "coreV2/appdb" {
+				return
+			}
+			seen[fn] = true
+			for _, a := range fn.AnonFuncs {
+				walk(a, d+1)
+			}
+			for _, s2 := range core.Sites(fn) {
+				walk(s2.Common.StaticCallee(), d+1)
+			}
+		}
+		walk(root, 0)
+		return seen
+	}
+	nFD := 0
+	for fn := range pkgReach(snap) {
+		for _, b := range fn.Blocks {
+			for _, in := range b.Instrs {
+				fa, ok := in.(*ssa.FieldAddr)
+				if !ok || !isAppDBPtr(fa.X.Type()) || !isData[fieldNameOf(fa)] {
+					continue
+				}
+				if fieldNameOf(fa) == "lastHeight" {
+					// write-through field (SetLastHeight stores and caches in one call, at Commit);
+					// Snapshot uses it only to refuse a height that is not the committed one
+					continue
+				}
+				nFD++
+				c.Bad("C29.fromdisk", "Snapshot→"+fn.Name()+"/"+fieldNameOf(fa), fa.Pos(), "the snapshot reads the in-memory cache field "+fieldNameOf(fa)+" (through "+core.ShortFn(fn)+") instead of the committed record: between EndBlock and Commit the cache already holds the next block's value, so two nodes snapshot different contents for the same height")
+			}
+		}
+	}
+	if nFD == 0 {
+		c.OK("C29.fromdisk", "Snapshot", snap.Pos(), fmt.Sprintf("Snapshot and the %d appdb functions it reaches read no cached record field", len(pkgReach(snap))))
+	}
+	// ---- fallback: a getter of a cached record consults the store when the cache is empty, so that
+	// a record written behind the cache by Restore (state sync on a fresh node) is seen
+	nFB := 0
+	for _, af := range fields {
+		loaders := map[*ssa.Function]bool{}
+		for _, l := range af.Loaders {
+			loaders[l.Fn] = true
+		}
+		if len(loaders) == 0 {
+			continue
+		}
+		for _, g := range f.Methods {
+			if g.Object() == nil || !g.Object().Exported() || g.Signature.Results().Len() == 0 || saversOrMutators(g, af) {
+				continue
+			}
+			// does a result depend on the cached field?
+			dep := false
+			for i := 0; i < g.Signature.Results().Len(); i++ {
+				for _, o := range core.ResultOrigins(g, i) {
+					if core.DependsOn(o, func(v ssa.Value) bool {
+						fa, ok := v.(*ssa.FieldAddr)
+						return ok && isAppDBPtr(fa.X.Type()) && fieldNameOf(fa) == af.Name
+					}) {
+						dep = true
+					}
+				}
+			}
+			if !dep {
+				continue
+			}
+			nFB++
+			reaches := false
+			for fn := range pkgReach(g) {
+				if loaders[fn] {
+					reaches = true
+				}
+			}
+			c.Check(reaches, "C29.fallback", g.Name()+"/"+af.Name, g.Pos(), "the getter falls back to the stored record when the cache is empty", g.Name()+" returns the cached "+af.Name+" without ever consulting the store: after a state-sync restore (which writes the records behind the caches) the node keeps the empty value until it is restarted")
+		}
+	}
+	c.Floor("C29.fallback", nFB, 4, "getters of cached app-DB records")
+
+	// ---- dirty (shared with C09)
 	flags := f.flagFields()
 	n := 0
 	for _, af := range fields {
@@ -335,4 +423,10 @@ func loaderStores(c *core.Ctx, f *appDBFacts, d string) map[*ssa.Function]ssa.In
 		}
 	}
 	return out
+}
+
+// saversOrMutators: g assigns the field (a setter / loader-only helper), so it is not a getter.
+func saversOrMutators(g *ssa.Function, af *appField) bool {
+	_, isMut := af.Mutators[g]
+	return isMut && g.Signature.Results().Len() == 0
 }
